@@ -144,6 +144,12 @@ func verifyFunc(prog *Program, fi *FuncInfo, con *FuncContract) (rep *FuncReport
 		x.inputs = append(x.inputs, t.S)
 	}
 	addParam(sig.Recv())
+	if rv := sig.Recv(); rv != nil && (rv.Name() == "" || rv.Name() == "_") {
+		// an unnamed receiver goes by "this" in the contract (as at call sites)
+		t := x.freshOf(st, "this", rv.Type())
+		x.ghostVals["this"] = t
+		x.inputs = append(x.inputs, t.S)
+	}
 	for i := 0; i < sig.Params().Len(); i++ {
 		addParam(sig.Params().At(i))
 	}
